@@ -272,7 +272,7 @@ def c07(ctx):
             "(or all on the same one), N=3, R in {1,2}, plus a final Get; every second round callers are delayed at the point between their read and their write (atomic.read); non-trivial = two calls on the key overlap in time; "
             "IncrByFloat deltas are dyadic so the expected sum is exact")
     vlib.design_expect_violation(ctx, "AtomicSpecMC", "AtomicSpec_old.cfg", "NoLostUpdate", "D14 (the design before the repair)", name="AtomicSpec-old")
-    return reg_run(ctx, "TestC07", "c07.ndjson", "c07.summary.json", {"VERIF_ROUNDS": 12 if quick else 300},
+    return reg_run(ctx, "TestC07", "c07.ndjson", "c07.summary.json", {"VERIF_ROUNDS": 12 if quick else 1500},
                    [("AtomicSpecMC", "AtomicSpec.cfg", {}), ("AtomicSpecMC", "AtomicSpec_getput.cfg", {})], rule, "atomic read-modify-write", tags_of=entry_tags)
 
 
@@ -306,7 +306,7 @@ def c09(ctx):
             "a final read; random entry path per key; N=3, R in {1,2}; every history is non-trivial (operations fall within one ttl of the deadline)"
             + "; keys with an hour to live (every option form) sharing small tables with deleted fillers while the compaction timer runs; a dozen keys of one partition expiring together and rewritten a few ms later while the eviction workers are slowed down at their trace points")
     return reg_run(ctx, "TestC09", "c09.ndjson", "c09.summary.json",
-                   {"VERIF_ROUNDS": 2 if quick else 25, "VERIF_PER_BATCH": 40 if quick else 60},
+                   {"VERIF_ROUNDS": 2 if quick else 60, "VERIF_PER_BATCH": 40 if quick else 60, "VERIF_MASS": 3 if quick else 40},
                    [], rule, "expiry visibility", tags_of=ttl_tags)
 
 
@@ -323,7 +323,7 @@ def c08(ctx):
     # the two-step Unlock/Lease of the code as found violates mutual exclusion (D25, repaired); the repaired design does not
     vlib.design_expect_violation(ctx, "LockSpec", "LockSpec_old.cfg", "MutualExclusion", "D25 (the design before the repair)", name="LockSpec-old")
     return reg_run(ctx, "TestC08", "c08.ndjson", "c08.summary.json",
-                   {"VERIF_ROUNDS": 2 if quick else 30, "VERIF_PER_BATCH": 20 if quick else 30, "VERIF_RACES": 2 if quick else 25},
+                   {"VERIF_ROUNDS": 2 if quick else 40, "VERIF_PER_BATCH": 20 if quick else 30, "VERIF_RACES": 2 if quick else 25, "VERIF_SIMUL": 30 if quick else 400},
                    [("LockSpec", "LockSpec.cfg", {})], rule, "distributed lock", tags_of=ttl_tags)
 
 
@@ -393,7 +393,7 @@ def c04(ctx):
             + "; entries about as large as a storage table; rounds of 3-5 concurrent mutating operations (and lock hand-overs to a waiter) on one key with the copies compared once all have returned; janitor and compaction timers run in the small-table cluster")
     design = [("DMapKeyMC", "DMapKey_quick.cfg" if quick else "DMapKey_thorough.cfg", {"timeout": 1500})]
     return det_run(ctx, "reg", "TestC04", "c04.ndjson", "c04.summary.json", "ReplicaTrace", "ReplicaTrace.cfg",
-                   {"VERIF_SEQUENCES": 60 if quick else 1500}, design, rule, "backup mirrors primary", tags_of=last_op_tags)
+                   {"VERIF_SEQUENCES": 60 if quick else 4000, "VERIF_C04_ROUNDS": 30 if quick else 500}, design, rule, "backup mirrors primary", tags_of=last_op_tags)
 
 
 def c05_tags(head, evs, line, msg):
@@ -601,7 +601,7 @@ def c10(ctx):
             + "; idle eviction on 1 member and on 2 members with 2 replicas, default and 512-byte tables, warm keys kept alive by reads only or by reads and writes")
     design = [("EvictionMC", "Eviction.cfg", {})]
     return det_run(ctx, "reg", "TestC10", "c10.ndjson", "c10.summary.json", "EvictionTrace", "EvictionTrace.cfg",
-                   {"VERIF_ROUNDS": 1 if quick else 8}, design, rule, "eviction bounds", tags_of=c10_tags)
+                   {"VERIF_ROUNDS": 1 if quick else 20}, design, rule, "eviction bounds", tags_of=c10_tags)
 
 
 def c17_tags(head, evs, line, msg):
@@ -622,7 +622,7 @@ def c17(ctx):
             "plus every size case within one byte of a limit"
             + "; every value once more in ONE pipeline (Put / GetPut alternating); entry sizes from 40 bytes under the table size to 2 over it with the number of equal copies counted white box")
     return det_run(ctx, "reg", "TestC17", "c17.ndjson", "c17.summary.json", "CodecTrace", "CodecTrace.cfg",
-                   {"VERIF_C17_RANDOM": 80 if quick else 3000}, [], rule, "value and key fidelity", tags_of=c17_tags)
+                   {"VERIF_C17_RANDOM": 80 if quick else 12000}, [], rule, "value and key fidelity", tags_of=c17_tags)
 
 
 def c18_tags(head, evs, line, msg):
@@ -640,7 +640,7 @@ def c18(ctx):
             "every sequence observes a handle after a later mutation of the store"
             + "; keys handed out by iterators are kept like values; pipelined Put/GetPut whose []byte argument the caller overwrites before Exec")
     return det_run(ctx, "reg", "TestC18", "c18.ndjson", "c18.summary.json", "SnapshotTrace", "SnapshotTrace.cfg",
-                   {"VERIF_SEQUENCES": 40 if quick else 2000}, [], rule, "returned values are private snapshots", tags_of=c18_tags)
+                   {"VERIF_SEQUENCES": 40 if quick else 8000}, [], rule, "returned values are private snapshots", tags_of=c18_tags)
 
 
 @register("C19")
@@ -665,7 +665,7 @@ def c19(ctx):
     allfile = os.path.join(out, "all.jsonl")
     open(allfile, "w").write("\n".join(allp) + "\n")
     return det_run(ctx, "reg", "TestC19", "c19.ndjson", "c19.summary.json", "IsolationTrace", "IsolationTrace.cfg",
-                   {"VERIF_BEH": behfile, "VERIF_BEH_ALL": allfile, "VERIF_C19_RANDOM": 30 if quick else 800, "VERIF_OUT": out}, [], rule, "DMap isolation and Destroy",
+                   {"VERIF_BEH": behfile, "VERIF_BEH_ALL": allfile, "VERIF_C19_RANDOM": 30 if quick else 4000, "VERIF_OUT": out}, [], rule, "DMap isolation and Destroy",
                    tags_of=lambda head, evs, line, msg: {"msg": msg})
 
 
@@ -680,7 +680,7 @@ def c06(ctx):
             "non-trivial = at least two copies differ")
     design = [("Conflict", "Conflict.cfg", {}), ("ConflictMerge", "ConflictMerge.cfg", {"timeout": 900})]
     rc = det_run(ctx, "reg", "TestC06", "c06.ndjson", "c06.summary.json", "ConflictTrace", "ConflictTrace.cfg",
-                 {"VERIF_C06_MERGES": 300 if quick else 6000}, design, rule, "newest copy wins",
+                 {"VERIF_C06_MERGES": 300 if quick else 30000}, design, rule, "newest copy wins",
                  tags_of=lambda head, evs, line, msg: {"msg": msg, "rr": (evs[-1] if evs else {}).get("rr", False)})
     return rc
 
